@@ -79,9 +79,9 @@ CLAIMED = {
   "Lean 4 proof (applier soundness/completeness, path equivalence) + per-instance translation validation of difflib",
   "DESIGN.md section 7, C13"),
  "C15": (
-  "PARTIAL. Lean 4 theorems C15_* (21). Table level, over the regenerated tables: every part the PEP 440 conversion substitutes shows the same field unpadded, every padded part is covered, the tag tables are mutually consistent, the short tags are exactly the PEP 440 segments of C16's parser, a final tail is omitted, the conversion of every README example is the documented one. TREE level (Model/PepTree.lean mirrors _convert_to_pep440 step by step on pattern trees): C15_derived_accepts_own_rendering / C15_derived_accepts_of_original — the text written for {pep440_version} is matched IN FULL by the derived search pattern and reads back with every part equal, for every pattern whose derived tree is well-formed, every record in the domain (pepReady: non-zero BUILD under BLD, pytag the image of tag, final has no number) and any valid date; C15_vok_transfer* carry the domain from the version pattern to the derived one (a mandatory TAG under a final release is excluded with a proved witness: that version string is not PEP 440 anyway); C15_normal_form_parts — structurally: no v prefix, every numeric component after the first is natToStr of its field (no leading zero), the tag is one of a/b/rc/post/dev directly followed by NUM; C15_readme_tree_tie / _derived_wf / _derived_normal: all of it applies to every README pattern (kernel-evaluated). Still validated, not proved: that the rendered text denotes the SAME PEP 440 version as the version string (needs C16's parser on rendered strings) — oracle with `packaging`; and tree = string surgery beyond the README patterns — driver op pep_tie per generated pattern (73 % of generated (pattern, record) pairs inside the theorems' domain).",
-  "Trusted: Lean kernel + standard axioms; translator; 'denotes the same PEP 440 version' rests on the correspondence and the packaging-based oracle; the tokenizer tie tree <-> string surgery is checked per pattern. Patterns outside the README shapes: known finding F-C15-odd-shapes.",
-  "Lean 4 proof: table-level facts, tree-level conversion with acceptance / read-back / normal-form theorems (structural induction, reuse of the C02 composition), kernel evaluation per README pattern; version equality by correspondence and packaging oracle",
+  "Lean 4 theorems C15_* (33). Table level over the regenerated tables (substitutions unpadded, padded parts covered, tag tables consistent, short tags = C16's PEP 440 segments, README conversions). TREE level (Model/PepTree.lean mirrors _convert_to_pep440 step by step; Model/PepOfRecord.lean says which PEP 440 version a record denotes): the text written for {pep440_version} (a) is matched IN FULL by the derived search pattern and reads back with every part equal (C15_derived_accepts_own_rendering / _of_original, domain transfer C15_vok_transfer*), (b) is in the README's normal form (C15_normal_form_parts), (c) PARSES, with the model of the vendored PEP 440 parser, to exactly the version the record denotes — release numbers, pre/post/dev segment and number (C15_derived_parses, C15_derived_content), (d) parses to the SAME PepVersion as the version string itself, whatever zero padding, v prefix, '-' separator, long tag name or missing NUM the version pattern uses (C15_version_parses_equal, C15_version_key_equal), and (e) equals the PEP440 line of test/show up to normalisation (C15_equals_printed_pep440: str(parse_version(version)) = pepStr ver and parsePep (pepStr ver) = ver) — for every pattern tree with the decidable shape pepShaped and every record in the domain (vok, pepReady, pepCoherent; each hypothesis with a proved witness that it is necessary), and every README pattern is pepShaped (C15_readme_shaped, kernel-evaluated). PARTIAL only in that bumpver converts and renders by string surgery: tree = string pipeline is kernel-proved for the README patterns (C15_readme_tree_tie) and CHECKED per generated pattern by the driver op pep_tie; patterns outside pepShaped (mandatory TAG, odd separators) are the known finding F-C15-odd-shapes.",
+  "Trusted: Lean kernel + standard axioms; translator; the model of the vendored PEP 440 parser (tied to the code by C16's correspondence and to `packaging` by C16's oracle); the tokenizer tie tree <-> string surgery is checked per pattern. Patterns outside the README shapes: known finding F-C15-odd-shapes.",
+  "Lean 4 proof: table facts by kernel evaluation; structural induction over pattern trees for acceptance, read-back, normal form; parser lemmas (digit runs, letter segments) for 'denotes the same PEP 440 version'; correspondence + packaging oracle for the string-level tie",
   "DESIGN.md section 7, C15"),
  "C08": (
   "Lean 4 theorems C08_* about the version state (config value, tag list) under ANY sequence of update invocations of ANY length: consistency (config valid, no tag above it) is an invariant of every invocation, successful steps strictly increase (C16 order), failed ones change nothing, `show` agrees with the config, the newest tag is the config version when tagging, a further update is always possible — by induction over the operation list, built on C09's startVersion and C01's gate; the file side is C03/C06 and the commit/tag side C10. PARTIAL: real git is exercised, not modelled: seeded histories (random flags, non-decreasing dates, failing invocations, --no-commit/--no-tag-commit, unrelated commits, branch switches) run against real git; after each step config, every occurrence (re-materialised from an independently tracked reference state), `show`, tags, commit count and commit contents are checked, and the model's hstep is run on the same history (op history).",
@@ -94,9 +94,9 @@ CLAIMED = {
   "Lean 4 proof: per part over regenerated tables (decide +kernel on whole domains, induction on digit lists) and structural induction over pattern trees with a list-of-successes regex semantics (composition, read-back) + correspondence + round-trip oracle",
   "DESIGN.md section 7, C02"),
  "C20": (
-  "PARTIAL. Lean 4 theorems C20_* (23) about the legacy engine over the REGENERATED v1 tables (incl. the run-time composite initialisation, C20_composite_init): per-part table tie as in C02 (finite domains kernel-evaluated through the real format path, unbounded parts by the maximal-munch lemmas, tags), dispatch consistency (C20_dispatch: has_v1_part <-> not is_new_pattern for patterns of documented parts and brace-free text, with the {foo} witness), {pycalver} strictness on the record (YYYYMM never moves back, id grows numerically and lexically: C20_pycalver_strict/_release_tuple/_string/_chain), and strict increase through the gate (C20_gate_greater, C20_test_greater). The composition of parts over whole patterns is validated: ops v1_compile_search/v1_parse/v1_format/v1_incr/dispatch/v1_gate/v1_cli_test, render->parse->re-render oracle, chains of 150 (quick) / 1,000 (thorough) bumps, dispatch spied on incr_dispatch/_is_valid_version/_parse_config, real `bumpver update` on legacy projects.",
+  "Lean 4 theorems C20_* (39) about the legacy engine over the REGENERATED v1 tables (incl. the run-time composite initialisation, C20_composite_init). (1) Per-part table tie (finite domains kernel-evaluated through the real format path, unbounded parts by maximal-munch lemmas, tags); dispatch consistency (C20_dispatch, with the {foo} witness); {pycalver} strictness on the record (C20_pycalver_strict/_release_tuple/_string/_chain); strict increase through the gate (C20_gate_greater, C20_test_greater). (2) COMPOSITION over whole legacy patterns, proved on the legacy pattern tree (Model/V1Tree.lean, composites expanded): C20_tree_accepted_in_full (re.match of the compiled regex consumes the whole rendered text and captures exactly the rendered part texts), C20_tree_roundtrip / _of_date (the record read back by _parse_pattern_groups/_parse_field_values agrees on every part and re-renders identically; the calendar-consistency hypothesis calOk is necessary, C20_calOk_needed_witness, and holds for every real date), and through the model's STRING pipeline for 18 documented patterns ({pycalver}, {semver}, the _normalized_pattern forms, combinations): C20_roundtrip_documented, C20_is_valid_documented (tree compile = string compile as a real equality, kernel-evaluated; render tie on sample records). PARTIAL: the string renderer (FULL_PART_FORMATS + str.format) = tree renderer beyond those patterns is validated by ops v1_format/v1_parse/v1_incr and the render->parse->re-render oracle, chains of 150 / 1,000 bumps (also from all-nines ids), dispatch spied on incr_dispatch/_is_valid_version/_parse_config, real `bumpver update` on legacy projects (also with a non-UTF-8 file).",
   "Trusted: Lean kernel + standard axioms; translator (v1 tables, pep440 map from the AST); regex fragment (the empty-iteration nuance of mRep is documented); rough-edge parts are known findings F-C20-dom-short/-doy-short/-padded-bid/-week-parts/-dispatch.",
-  "Lean 4 proof per part and on the version record over regenerated tables + correspondence + chain oracle",
+  "Lean 4 proof per part and on the version record over regenerated tables, structural induction over legacy pattern trees (composition, read-back) + kernel evaluation of the tree/string tie for the documented patterns + correspondence + chain oracle",
   "DESIGN.md section 7, C20"),
  "C18": (
   "Lean 4 theorems C18_* about the executable model of config.py's post-parser logic: for EVERY expressible abstract configuration the INI path (parseCfgPost on the raw dict configparser yields, [bumpver] or legacy [pycalver]) and the TOML path (parseTomlPost, [tool.bumpver] / [bumpver] / [pycalver]) give the SAME effective settings under the same environment (C18_equiv, C18_sections); tag/push require commit (C18_requires_commit); the config file is always among the files with its own current_version line pattern (C18_self_pattern); every generated true spelling in any case is True, everything else False (C18_bool_spellings); negative witness for quoted booleans. PARTIAL: configparser and toml are parameters — on every generated configuration the check verifies that the real parsers return exactly the raw dicts the theorem assumes (op abs_raw), compares the real readers with the model, and runs `config.init` / `bumpver show` on sibling projects in every format.",
